@@ -193,6 +193,7 @@ class Diagram(object):
         self.rels = []
         self.enums = []           # [(name, [enumerators], where)]
         self.udts = []            # [(name, base type name, where)]
+        self.sdts = []            # structured types [(name, where)] (not supported as attribute type by the XSD generator)
         self.functions = []       # [(Callable_, where)]
         self.ees = []             # [(name, key letters, [Callable_], where)]
         self.constants = []       # [(group, [(name, type, value text)], where)]
@@ -265,6 +266,13 @@ def build(d, rows=None):
         pe(i, where, 3)
         R.add('S_DT', DT_ID=i, Name=name)
         R.add('S_UDT', DT_ID=i, CDT_DT_ID=dt[base], Gen_Type=0)
+
+    for name, where in d.sdts:
+        i = R.new_id()
+        dt[name] = i
+        pe(i, where, 3)
+        R.add('S_DT', DT_ID=i, Name=name)
+        R.add('S_SDT', DT_ID=i)
 
     # classes and attributes
     obj = {}
